@@ -276,7 +276,7 @@ def run_honest(spec, rec, m):
                 comp = j % 2 == 1
             msg, arm = gen_message(rng, mi)
             s = check_signed(net, code, se, comp, msg, arm, rec, m, rng, light=light, others=codes_all)
-            if s and j == 1 and ci < 2:
+            if s and j == 13 + 2 * ci + spec["part"] and ci < 2:
                 rec.sample(dict(s, op="sign / verify / recover / armour"))
         rec.ev("networks_usable")
 
